@@ -124,6 +124,68 @@ class CliRun:
         return self.ev
 
 
+class DiscoverRun:
+    """scripts/discover_devices.py run as a program: which ports it listens on for a protocol-type option and what it prints.
+    scenario = {"argv": [...], "type": "1"|"2"|"all"|"", "dgrams": [{"p": port, "d": datagram description}]}"""
+
+    def __init__(self, scn: dict):
+        self.scn = scn
+        self.net = vnet.VNet()
+        self.bound: list[int] = []
+        self.sent: list[dict] = []
+
+    def _inject(self, loop):
+        from .udpdrive import make_datagram
+        self.bound = sorted(p for p, ep in self.net.udp.items() if not ep.closing)
+        for it in self.scn["dgrams"]:
+            data = make_datagram(it["d"])
+            self.net.send_udp(loop, it["p"], data)
+            self.sent.append({"p": it["p"], "b": list(data)})
+
+    def go(self) -> list[dict]:
+        import re
+        from .udpdrive import live_types
+        root = os.environ.get("VERIF_REPO") or "/repo"
+        script = str(Path(root) / "scripts" / "discover_devices.py")
+        run = self
+
+        class Pol(_Policy):
+            def new_event_loop(self_inner):
+                loop = _Policy.new_event_loop(self_inner)
+                loop.call_later(0.15, run._inject, loop)
+                return loop
+        pol = Pol(self.net)
+        old_pol = asyncio.get_event_loop_policy()
+        old_argv = sys.argv
+        out = io.StringIO()
+        exc = ""
+        try:
+            asyncio.set_event_loop_policy(pol)
+            sys.argv = ["discover_devices.py"] + list(self.scn["argv"])
+            with contextlib.redirect_stdout(out), contextlib.redirect_stderr(io.StringIO()):
+                try:
+                    runpy.run_path(script, run_name="__main__")
+                except SystemExit:
+                    pass
+                except BaseException as x:  # noqa: BLE001
+                    exc = type(x).__name__
+        finally:
+            sys.argv = old_argv
+            asyncio.set_event_loop_policy(old_pol)
+            for lp in pol.loops:
+                if not lp.is_closed():
+                    lp.close()
+        printed = [list(m.encode()) for m in re.findall(r"'device_id': '([0-9a-fA-F]*)'", out.getvalue())]
+        left = sorted(p for p, ep in self.net.udp.items() if not ep.closing)
+        return [{"ev": "Types", "known": live_types()},
+                {"ev": "Discover", "type": self.scn["type"], "bound": self.bound, "dgrams": self.sent, "printed": printed,
+                 "exc": exc, "left": left}]
+
+
+def run_discover(scn: dict) -> list[dict]:
+    return DiscoverRun(scn).go()
+
+
 def run_scenario(scn: dict) -> list[dict]:
     with host_zone(scn.get("zone", "UTC")), frozen(scn["t0"]):
         return CliRun(scn).go()
